@@ -35,7 +35,7 @@ def build_frame(case):
             if case["format"] == "PDB":
                 return g4.pdb_frame(case["rows"])
             seed = case.get("emit_seed")
-            return g4.cif_frame(case["rows"], random.Random(seed) if seed is not None else None)
+            return g4.cif_frame(case["rows"], random.Random(seed) if seed is not None else None, drop=tuple(case.get("drop") or ()))
         with open(case["file"]) as f:
             text = f.read()
         df = parse_pdb_atoms(text) if case["format"] == "PDB" else parse_cif_atoms(text)
@@ -86,6 +86,20 @@ def step(out, path, name, f, *a):
 def real(case):
     from rnapolis.parser_v2 import can_write_pdb, parse_cif_atoms, parse_pdb_atoms, write_cif, write_pdb
     out = {"raises": [], "diff": {}, "fmt": case["format"]}
+    if case.get("written_before"):
+        # the process has written another table before: one whose last atom has an alternate location, an insertion code,
+        # an element and a charge.  Nothing of it may show in what is written for this case.
+        prior = [{"record": "HETATM", "serial": 7, "name": "MG", "altLoc": "B", "resName": "MG", "chain": "Q", "resSeq": 77, "iCode": "Z",
+                  "x": 1000, "y": 2000, "z": 3000, "occ": 50, "b": 1000, "element": "MG", "charge": "2+", "model": 1}]
+        for fr in (g4.pdb_frame, g4.cif_frame):
+            try:
+                with warnings.catch_warnings():
+                    warnings.simplefilter("ignore")
+                    d0 = fr(prior)
+                    write_pdb(d0)
+                    write_cif(d0)
+            except Exception:  # noqa: BLE001
+                pass
     try:
         df = build_frame(case)
     except Exception as e:  # noqa: BLE001  (a corpus file the reader cannot read at all is C08's business)
@@ -226,6 +240,22 @@ def build_cases(ctx, res):
             cases.append({"source": "gen", "format": "PDB", "rows": rows, "family": "models-out-of-order:%d-rows" % (100 * (len(rows) // 100))})
             cases.append({"source": "gen", "format": "mmCIF", "rows": rows, "emit_seed": rng.randrange(1 << 30),
                           "family": "models-out-of-order:%d-rows" % (100 * (len(rows) // 100))})
+    # minimal atom_site loops: no alternate-location, insertion-code, charge (or element) item at all, written after the
+    # process has written a table that has all of them
+    for i in range(ctx.pick(24, 300)):
+        rows = [dict(r, altLoc="", iCode="", charge="") for r in g4.random_table(rng, nmodels=1, max_res=3) if g4.within_limits(r)]
+        # dropping the insertion code must not merge residues: keep one residue per (chain, number)
+        seen, keep = {}, []
+        for r in rows:
+            k = (r["chain"], r["resSeq"])
+            if seen.setdefault(k, (r["resName"],)) == (r["resName"],):
+                keep.append(r)
+        drop = ["label_alt_id", "pdbx_PDB_ins_code", "pdbx_formal_charge"]
+        if rng.random() < 0.3:
+            drop = rng.sample(drop, 2)
+        if keep:
+            cases.append({"source": "gen", "format": "mmCIF", "rows": keep, "emit_seed": None, "drop": drop, "written_before": True,
+                          "family": "minimal-loop-after-full-table"})
     # hand-made minimal shapes
     base = {"record": "ATOM", "serial": 1, "name": "P", "altLoc": "", "resName": "G", "chain": "A", "resSeq": 1, "iCode": "",
             "x": 1000, "y": -2000, "z": 3, "occ": 100, "b": 2050, "element": "P", "charge": "", "model": 1}
@@ -571,8 +601,18 @@ def reparse_case(case):
             with warnings.catch_warnings():
                 warnings.simplefilter("ignore")
                 parse = parse_pdb_atoms if fmt == "PDB" else parse_cif_atoms
-                with open(path) as f:
-                    df1 = parse(f)
+                text = open(path).read()
+                via = case.get("via", "file")
+
+                def read():
+                    # the three kinds of argument the readers accept: an open file, the text, an in-memory stream
+                    if via == "str":
+                        return parse(text)
+                    if via == "stringio":
+                        return parse(io.StringIO(text))
+                    with open(path) as f:
+                        return parse(f)
+                df1 = read()
                 for col in list(df1.columns)[:]:
                     if col in ("chainID", "auth_asym_id", "label_asym_id"):
                         df1[col] = "Z"
@@ -580,8 +620,7 @@ def reparse_case(case):
                         df1[col] = 0.0
                 if len(df1):
                     df1.drop(df1.index[-1], inplace=True)
-                with open(path) as f:
-                    df2 = parse(f)
+                df2 = read()
             back = g4.rows_of(df2)
             want = [dict(r, _raw=(r["x"] / 1000, r["y"] / 1000, r["z"] / 1000, r["occ"] / 100, r["b"] / 100)) for r in rows]
             out["diff"] = g4.compare_rows(want, back)
@@ -596,17 +635,22 @@ def run_reparse(ctx, res):
     for k in range(ctx.pick(12, 120)):
         rows = [r for r in g4.random_table(rng) if g4.within_limits(r)]
         if rows:
-            cases.append({"rows": rows, "format": rng.choice(["PDB", "mmCIF"])})
+            cases.append({"source": "reparse", "rows": rows, "format": rng.choice(["PDB", "mmCIF"]), "via": rng.choice(["file", "str", "stringio"])})
     for case, o in zip(cases, parallel_map(reparse_case, cases)):
-        res.case(("reparse", case["format"], len(case["rows"])), nontrivial=True)
-        res.count("family:read-edit-read:" + case["format"])
-        inp = {"source": "reparse", "format": case["format"], "rows": case["rows"]}
-        if o["raises"]:
-            res.fail("spec", "C09:reader:second-read-raises", inp, o["raises"])
-        elif o["diff"] is not None:
-            d = o["diff"]
-            res.fail("spec", "C09:reader:second-read-differs:%s" % d[1], inp,
-                     "after the first table was edited in place, reading the unchanged file again gives %s of row %d: %r -> %r" % (d[1], d[0], d[2], d[3]))
+        res.case(("reparse", case["format"], case["via"], len(case["rows"])), nontrivial=True)
+        res.count("family:read-edit-read:%s:%s" % (case["format"], case["via"]))
+        judge_reparse(res, case, o)
+
+
+def judge_reparse(res, case, o):
+    inp = {"source": "reparse", "format": case["format"], "via": case.get("via", "file"), "rows": case["rows"]}
+    if o["raises"]:
+        res.fail("spec", "C09:reader:second-read-raises", inp, o["raises"])
+    elif o["diff"] is not None:
+        d = o["diff"]
+        res.fail("spec", "C09:reader:second-read-differs:%s" % d[1], inp,
+                 "after the first table was edited in place, reading the unchanged content again (%s) gives %s of row %d: %r -> %r"
+                 % (inp["via"], d[1], d[0], d[2], d[3]))
 
 
 # ------------------------------------------------------------------------------------------------- entry points
@@ -660,6 +704,9 @@ def signatures_of(ctx, case):
     if case.get("source") == "splitter":
         judge_split(ctx, res, split_case(res, case["rows"], case["in"], case["out"]))
         return res
+    if case.get("source") == "reparse":
+        judge_reparse(res, case, reparse_case(case))
+        return res
     o = real(case)
     if "skip" not in o:
         judge(ctx, res, [case], [o])
@@ -707,6 +754,8 @@ def replay(ctx, data):
     res = signatures_of(ctx, case)
     if case.get("source") == "splitter":
         print("splitter.main on %d rows, %s -> %s" % (len(case["rows"]), case["in"], case["out"]))
+    elif case.get("source") == "reparse":
+        print("read (%s), edit the returned table in place, read the same content again: %d rows, %s" % (case.get("via", "file"), len(case["rows"]), case["format"]))
     else:
         o = real(case)
         print("table: format=%s rows=%d fits=%s" % (o["fmt"], o["n"], o["fits"]))
